@@ -148,7 +148,7 @@ def main():
         "setup_cmd": "cd /verif/harness && CARGO_NET_OFFLINE=true cargo build --release --offline",
         "hooks": {
             "guard": "cargo feature verif_hooks (flexi_logger)",
-            "enable": "the harness crate /verif/harness depends on flexi_logger by path /repo with features [async, compress, json, kv, buffer_writer, syslog_writer, specfile_without_notification, specfile, verif_hooks]; check.sh runs `cargo build --release --offline` before every check, so the current working tree of /repo is rebuilt",
+            "enable": "the harness crate /verif/harness depends on flexi_logger by path /repo with features [async, compress, json, kv, buffer_writer, syslog_writer, specfile_without_notification, verif_hooks] (C12 only: additionally specfile, through the harness feature `watcher`, second build in harness/target-w); check.sh runs `cargo build --release --offline` before every check, so the current working tree of /repo is rebuilt",
             "baseline_off_cmd": "cd /repo && cargo nextest run --workspace --no-fail-fast --tool-config-file pb:/w/lib/nextest.toml --profile pb --test-threads 8 --offline",
             "source_commits": hook_commits(),
             "add_only": True,
